@@ -147,6 +147,47 @@ func leafObject(o *ObjectRecipe) bool {
 	return true
 }
 
+// refClosure returns the object with the given id followed by every object it reaches through plain references
+// (also inside lists and maps); ok is false if a one-of is reached (those stay references into the outer scope).
+func refClosure(sc *ScopeRecipe, id string) (objs []*ObjectRecipe, ok bool) {
+	seen := map[string]bool{}
+	ok = true
+	var visitObj func(id string)
+	var visitType func(t *TypeRecipe)
+	visitType = func(t *TypeRecipe) {
+		if t == nil || !ok {
+			return
+		}
+		switch t.Kind {
+		case "oneof_s", "oneof_i":
+			ok = false
+			return
+		case "ref":
+			visitObj(t.Ref)
+		}
+		visitType(t.Items)
+		visitType(t.Keys)
+		visitType(t.Values)
+	}
+	visitObj = func(id string) {
+		if seen[id] || !ok {
+			return
+		}
+		o := sc.object(id)
+		if o == nil {
+			ok = false
+			return
+		}
+		seen[id] = true
+		objs = append(objs, o)
+		for i := range o.Props {
+			visitType(&o.Props[i].T)
+		}
+	}
+	visitObj(id)
+	return objs, ok
+}
+
 // BuildType builds a fresh schema type from a recipe.
 func BuildType(t *TypeRecipe) schema.Type {
 	switch t.Kind {
@@ -203,6 +244,16 @@ func BuildType(t *TypeRecipe) schema.Type {
 					// an inline scope of its own around a copy of the member object
 					m[kv[0]] = schema.NewScopeSchema(BuildObject(o))
 					continue
+				} else if o != nil {
+					// a nested scope with references of its own: the member object and everything it refers to
+					if objs, ok := refClosure(scopeOf, kv[1]); ok {
+						var built []*schema.ObjectSchema
+						for _, c := range objs {
+							built = append(built, BuildObject(c))
+						}
+						m[kv[0]] = schema.NewScopeSchema(built[0], built[1:]...)
+						continue
+					}
 				}
 			}
 			if refs[kv[1]] == nil {
